@@ -10,7 +10,7 @@ Nothing here mentions a queue, worker threads, the backlog or a schedule.  C02 p
 model (`Sqfs/Model/BlockWriter.lean`, `FragDedup.lean`, block processor) computes exactly this for every
 `(jobs, backlog, schedule)`; C08 and C17 state their theorems against it.
 
-Source of every clause (pinned snapshot of squashfs-tools-ng 1.2.0):
+Source of every clause (/repo working tree, squashfs-tools-ng 1.2.0 + fixes):
   frontend.c   `sqfs_block_processor_append` / `_end_file`      → block decomposition   (`fullBlocks`, `packFile`)
   block_processor.c `process_block`                              → per-block worker rule (`workData`, `fragKey`, `workFragBlock`)
   backend.c    `process_completed_block`                         → block words, sparse counter, start
@@ -18,10 +18,10 @@ Source of every clause (pinned snapshot of squashfs-tools-ng 1.2.0):
   backend.c    `process_completed_fragment`                      → fragment dedup, packing, closing (`placeTail`, `addFragment`, `closeOpen`)
   block_processor.c `sqfs_block_processor_finish`                → `closeOpen` of the last open fragment block
 
-Repaired behaviour (DESIGN.md §5 D24): a fragment block is **never** treated as sparse (`workFragBlock` has
-no sparse branch).  The rule of the pinned snapshot — the fragment block inherits only `DONT_COMPRESS` from
-its members, so `process_block` may flag an all-zero fragment block `IS_SPARSE` — is kept in
-`Sqfs/Witness/C17.lean`.
+Current behaviour (since /repo 47f7b3d, DESIGN.md §5 D24): a fragment block is **never** treated as sparse
+(`workFragBlock` has no sparse branch; `process_block` tests `SQFS_BLK_FRAGMENT_BLOCK`).  The rule before that fix —
+the fragment block inherits only `DONT_COMPRESS` from its members, so `process_block` may flag an all-zero fragment
+block `IS_SPARSE` — is kept in `Sqfs/Model/PackCur.lean` / `Sqfs/Witness/C17.lean`.
 
 Conventions.  A block size word is a `Word` (`sparse` = the C value 0, `stored n raw` = `n | (raw ? 1<<24 : 0)`),
 `Word.toNat` gives the C value.  The writer's history entry `Stored` carries the payload itself, so the data
@@ -213,9 +213,9 @@ def placeBlocks (base : Nat) (dontDedup : Bool) (hist mine : List Stored) : List
 /-! ## fragments -/
 
 /-- a recorded fragment (hash-table entry): where it lives and its key (size is `data.length`).
-Repaired rule (finding D27): the key also contains the member's `DONT_COMPRESS`, so that a `dont_compress` tail is
-never deduplicated into a fragment block that gets compressed (at the pinned snapshot the key is
-`(size, checksum, bytes)` only — `Sqfs/Model/PackCur.lean`). -/
+Current rule (since /repo fcd11e4, finding D27; `chunk_info_equals` compares `flags`): the key also contains the
+member's `DONT_COMPRESS`, so that a `dont_compress` tail is never deduplicated into a fragment block that gets
+compressed (before the fix the key was `(size, checksum, bytes)` only — `Sqfs/Model/PackCur.lean`). -/
 structure Chunk where
   index : Nat
   offset : Nat
